@@ -23,7 +23,7 @@ PY_SUCC = "PyLibSucc PySrcSucc PySrcSuccFacts PySrcSuccCtl PySrcSuccCtlFacts"   
 PY_API = PY_SCCMAIN + " PyLibBlocks PySrcSdBlocks PySrcSdBlocksFacts PySrcApi PySrcEndToEndScc PySrcEndToEndBlocks"     # public methods expand_scc / expand_block / build; expand_source_blocks
 PY_CONTROL = "PyLib PyLibSd PyLibPerc PyLibCore PyLibControl PySrcControl PySrcControlFacts PySrcFindDriversFacts PySrcControlCorollaries"    # control.find_drivers, drivers_of_succession
 PY_ASEEDS = PY_MIN + " Candidates Blocks ASeeds PySrcSdASeeds PySrcSdASeedsFacts"     # _sd_algorithms/expand_attractor_seeds.py
-EXTRA_IMPORTS = {"C08": "Candidates Control PyLib PyLibSd PyLibPerc PySrcRetained PySrcRetainedFacts", "C09": "PetriNet PySrcClingo PySrcClingoFacts", "C17": "Names NamesFacts PySrcNames PySrcNamesFacts", "C02": PY_SD + " " + PY_CORE2 + " PySrcEndToEnd", "C01": PY_API, "C03": PY_SD + " " + PY_ASEEDS + " PySrcComplFacts " + PY_API + " " + PY_GETTERS, "C04": PY_SD + " " + PY_CORE, "C05": PY_CORE2 + " " + PY_MIN, "C13": PY_SD + " " + PY_TARGET + " " + PY_ASEEDS + " PySrcTermFacts " + PY_API, "C14": PY_CORE2 + " " + PY_SCC, "C15": PY_SD + " " + PY_TARGET + " " + PY_ASEEDS, "C16": "PyLib PyLibPickle PySrcPickle PySrcPickleFacts " + PY_CORE2,
+EXTRA_IMPORTS = {"C08": "Candidates Control PyLib PyLibSd PyLibPerc PySrcRetained PySrcRetainedFacts", "C09": "PetriNet PySrcClingo PySrcClingoFacts", "C17": "Names NamesFacts PySrcNames PySrcNamesFacts", "C02": PY_SD + " " + PY_CORE2 + " PySrcEndToEnd", "C01": PY_API, "C03": PY_SD + " " + PY_ASEEDS + " PySrcComplFacts " + PY_API + " " + PY_GETTERS, "C04": PY_SD + " " + PY_CORE, "C05": PY_CORE2 + " " + PY_MIN, "C13": PY_SD + " " + PY_TARGET + " " + PY_ASEEDS + " PySrcTermFacts " + PY_API, "C14": PY_CORE2 + " " + PY_SCC + " " + PY_API, "C15": PY_SD + " " + PY_TARGET + " " + PY_ASEEDS + " " + PY_API, "C16": "PyLib PyLibPickle PySrcPickle PySrcPickleFacts " + PY_CORE2,
                  "C06": PY_SPACE + " " + PY_TARGET + " PySrcEndToEndControl " + PY_CONTROL + " " + PY_SUCC, "C07": PY_CONTROL + " PyLibSd2 PySrcSdBase PySrcSdTarget PySrcSdTargetFacts " + PY_SUCC, "C10": PY_PLACE, "C11": PY_PERC, "C19": PY_SD + " " + PY_CORE, "C20": PY_KEY + " " + PY_CORE2 + " PyLibSd PyLibPerc PySrcIso PySrcIsoFacts " + PY_GETTERS}
 
 def imports_for(pid):
@@ -467,7 +467,8 @@ SPEC["C14"] = dict(title="Cached attractor data is never stale", comment="""
 Model: every cache field carries a ghost tag = the successor motif list and skip flag it was computed
 against (Diagram.cur_tag); CacheOK says every set field carries the node's CURRENT tag.  The correspondence
 run compares which fields are set after every operation and judges the cached values themselves.""",
- theorems=[("source_attach_scc_subdiagram", "py_attach_scc_subdiagram_spec_senv", "translator tie: the function GENERATED from the current text of expand_source_SCCs.attach_scc_subdiagram (PySrcSdScc.v: node copying, cache discarding for stubs and skip nodes, candidate queries, edge copying) does exactly what the model's SCC.attach_scc does in the situation in which expand_source_SCCs calls it (SCCTerm.senv / SI / good_at)"),
+ theorems=[("source_text_expand_block_cache_tags", "py_api_expand_block_CacheOK", "C14 for the SOURCE TEXT of the default strategy: whatever the generated expand_block returns, every cache tag of the diagram it leaves is sound (the source fast-forward writes its caches against the node's new successor list)"),
+           ("source_attach_scc_subdiagram", "py_attach_scc_subdiagram_spec_senv", "translator tie: the function GENERATED from the current text of expand_source_SCCs.attach_scc_subdiagram (PySrcSdScc.v: node copying, cache discarding for stubs and skip nodes, candidate queries, edge copying) does exactly what the model's SCC.attach_scc does in the situation in which expand_source_SCCs calls it (SCCTerm.senv / SI / good_at)"),
            ("source_attach_scc_subdiagram_no_assert", "py_attach_scc_subdiagram_spec_noassert", "... and for every sub-diagram satisfying attach_pre whenever the model does not report the assertion"),
            ("source_attach_scc_subdiagram_assert_case", "py_attach_scc_subdiagram_spec_counterexample", "the one discrepancy: when the assertion main_node_id != main_succ_id fires after edges were copied, the text raises with those edges in the diagram, the model returns the diagram before the edge loop (cannot happen in expand_source_SCCs: SCCTerm.attach_scc_SI)"),
            ("source_reclaim_node_data", "py_reclaim_node_data_spec", "translator tie: reclaim_node_data as generated from the source = Diagram.reclaim"),
@@ -484,7 +485,8 @@ Model: Diagram.step returns the diagram together with its result, whatever the r
 RRaised ..., RBool true): all invariants below are stated for fst (step ...) WITHOUT any hypothesis on the
 result, so they hold at every early stop and every raised limit error.  Resumption: from any such state an
 unrestricted BFS/DFS completes to a Hierarchy (bfs_complete / dfs_complete).""",
- theorems=[("source_expand_to_target", "py_expand_to_target_spec_all", "translator tie: the limit handling of the strategy drivers as written in the source (expand_to_target, expand_bfs, expand_dfs, expand_minimal_spaces) is the model's"),
+ theorems=[("source_text_expand_block_any_result", "py_api_expand_block_any_result", "C15 for the SOURCE TEXT of the default strategy: whatever the generated expand_block returns -- True, False at a size limit, the motif-limit error, out of fuel -- the diagram it leaves is well-formed and extends the one it started from"),
+           ("source_expand_to_target", "py_expand_to_target_spec_all", "translator tie: the limit handling of the strategy drivers as written in the source (expand_to_target, expand_bfs, expand_dfs, expand_minimal_spaces) is the model's"),
            ("source_expand_bfs", "py_expand_bfs_spec_all", None), ("source_expand_dfs", "py_expand_dfs_spec_all", None), ("source_expand_minimal_spaces", "py_expand_minimal_spaces_spec", None), ("source_expand_attractor_seeds", "py_expand_attractor_seeds_spec", None),
            ("step_SWF", "step_SWF", None), ("step_Faithful_all", "step_Faithful_all", None), ("step_NoStubEdges", "step_NoStubEdges", None),
            ("step_CacheOK", "step_CacheOK", None), ("step_extends", "step_extends", "nothing is ever removed or renumbered"),
